@@ -118,7 +118,7 @@ static Value genTransport(vg::Rng &r, bool big) {
   // quantities (cell areas) are long long: the same instance with every capacity and demand multiplied by 2^qscale.  The
   // solver only compares and subtracts quantities, so the plan is the same in units of 2^qscale; the event is logged in units.
   int qs = 0;
-  if (big && mode != 2 && style != 2) qs = (int)r.pick(std::vector<int>{0, 27, 31, 33, 36});
+  if (big && style != 2) qs = (int)r.pick(std::vector<int>{0, 27, 31, 33, 36});
   v.set("qscale", qs);
   // increaseCapacity() when the capacity already suffices: must change nothing (this is the call sequence of the rough legalizer)
   v.set("incNoop", mode != 2 && r.chance(0.6));
@@ -331,6 +331,22 @@ static void runTransport(int run, const Value &in) {
   ev.set("run", run).set("qscale", qs);
   auto finish = [&](TransportationProblem &pb) {
     if (in["increase"].asBool() || (in.has("incNoop") && in["incNoop"].asBool())) pb.increaseCapacity();
+    {
+      // after the normalisation the capacity covers the demand and is not larger than needed: sum(cap') = max(sum(cap), sum(dem))
+      long long sc = 0, sd = 0, sc1 = 0;
+      for (long long x : cap) sc += x;
+      for (long long x : dem) sd += x;
+      for (long long x : pb.capacities()) sc1 += x;
+      bool inc = in["increase"].asBool();
+      long long want = inc ? std::max(sc, sd) : sc;
+      ev.set("capShort", sc1 < sd).set("capExcess", sc1 != want);
+      if (sc1 < sd) {
+        // solving would not terminate: log the fate and stop here
+        ev.set("units", true).set("capKept", true).set("cap", Value::array()).set("dem", Value::array()).set("cost", Value::array()).set("alloc", Value::array());
+        ev.set("poth", Value::array()).set("potl", Value::array()).set("assign", Value::array());
+        return;
+      }
+    }
     pb.solve();
     std::vector<std::vector<long long>> costs(ns, std::vector<long long>(nr));
     for (int i = 0; i < ns; ++i)
